@@ -28,7 +28,7 @@ var serviceInfoType, capMapType *rc.Type
 
 func init() {
 	var err error
-	serviceInfoType, err = rc.ParseSig("(sIsI[s]s)<ServiceInfo,name,serviceId,machineId,processId,endpoints,sessionId>")
+	serviceInfoType, err = rc.ParseSig("(sIsI[s]ss)<ServiceInfo,name,serviceId,machineId,processId,endpoints,sessionId,objectUid>")
 	if err != nil {
 		panic(err)
 	}
@@ -98,7 +98,11 @@ func cutAll(c *wk.Ctx, stream string, i int, entry string, enc []byte, ks []int,
 		return
 	}
 	if ferr != nil {
+		// nothing can be said about the prefixes of an encoding the decoder does not accept in the first
+		// place; it also means that the harness's idea of the format and the decoder disagree (or that the
+		// decoder is broken for valid data, which C02 / C03 judge): visible as an inconclusive case
 		c.Count("full_encoding_rejected_"+entry, 1)
+		c.Inconclusive(stream, i, fmt.Sprintf("%s rejected the complete %d-byte encoding: %v", entry, len(enc), ferr))
 		return
 	}
 	for _, k := range ks {
@@ -317,6 +321,10 @@ func c08(c *wk.Ctx) {
 		if i%16 == 15 { // up to two strings / buffers of 4 KiB .. 70 KiB
 			long := 2
 			vo.LongStr = &long
+		}
+		if i%8 == 3 { // up to two strings / buffers whose length is within 4 of a power of two (28 .. 4100)
+			mid := 2
+			vo.MidStr = &mid
 		}
 		v := fixDyn(rng, t, rc.GenValue(rng, t, vo))
 		enc, fields := rc.EncodeFields(t, v)
